@@ -2053,6 +2053,8 @@ def clause_of(case):
         return clause_of(case["case"])
     if kind == "e2e":
         return e2e_full(case)[2] if valid_e2e(case) else None
+    if kind == "pre":
+        return pre_judged(case["pre"], pre_run(case["pre"], [case["case"]])[0]) if valid_pre(case) else None
     if kind == "seq":
         if not valid_seq(case):
             return None
@@ -2377,6 +2379,237 @@ def observe_suppression_report(ctx):
         forget_exit_reports(gl)
 
 
+# --------------------------------------------------------------------------- state that exists before the logger does
+
+
+def _foreign_audit_method():
+    logging.addLevelName(35, "AUDIT")
+    logging.Logger.audit = lambda self, msg, *a, **k: self.log(35, msg, *a, **k)
+
+
+def _foreign_audit_level_name():
+    logging.addLevelName(35, "AUDIT")
+    logging.AUDIT = 35
+
+
+def _foreign_alert_function():
+    logging.alert = lambda msg, *a, **k: logging.log(45, msg, *a, **k)
+
+
+def _foreign_alert_method():
+    logging.addLevelName(45, "ALERT")
+    logging.Logger.alert = lambda self, msg, *a, **k: self.log(45, msg, *a, **k)
+
+
+def _level_numbers_taken():
+    for name, n in LEVELS:
+        logging.addLevelName(n, "APP%d" % n)
+
+
+def _named_logger_configured():
+    lg = logging.getLogger("DEFAULT")
+    lg.addHandler(logging.StreamHandler(io.StringIO()))
+    lg.setLevel(50)
+    lg.disabled = False
+
+
+def _logger_class_before():
+    logging.setLoggerClass(type("AppLogger", (logging.Logger,), {}))
+
+
+def _logger_class_after():
+    logging.getLogger("DEFAULT")
+    logging.setLoggerClass(type("AppLogger", (logging.Logger,), {}))
+
+
+def _logging_disable():
+    logging.disable(10)
+
+
+def _env_level():
+    os.environ["LOGGING_LEVEL"] = "45"
+
+
+def _get_logger_twice(cl):
+    soft_call(soft(cl, "get_logger"), "cache_clear")
+
+
+def _set_log_name(cl):
+    soft_call(cl, "set_log_name", "svc-2")
+
+
+def _set_log_name_back(cl):
+    soft_call(cl, "set_log_name", "svc-2")
+    cl.get_logger()
+    soft_call(cl, "set_log_name", "DEFAULT")
+
+
+# name -> (when: "before" orso.logging is imported | "after" the first get_logger(), what)
+PRE_STEPS = {
+    "foreign-audit-method": ("before", _foreign_audit_method),          # logging.Logger.audit exists (another library's AUDIT level)
+    "foreign-audit-level-name": ("before", _foreign_audit_level_name),  # logging.AUDIT = 35 and its name, no method
+    "foreign-alert-function": ("before", _foreign_alert_function),      # logging.alert exists (module-level function)
+    "foreign-alert-method": ("before", _foreign_alert_method),          # logging.Logger.alert exists
+    "level-numbers-taken": ("before", _level_numbers_taken),            # orso's six level numbers already carry other names
+    "named-logger-configured": ("before", _named_logger_configured),    # the logger of that name has a handler and a level already
+    "logger-class-before": ("before", _logger_class_before),            # logging.setLoggerClass(subclass) before anything
+    "logger-class-after-logger-exists": ("before", _logger_class_after),  # ... after the named logger was created
+    "logging-disable": ("before", _logging_disable),                    # logging.disable(DEBUG)
+    "env-logging-level": ("before", _env_level),                        # LOGGING_LEVEL=45
+    "get-logger-twice": ("after", _get_logger_twice),                   # cache cleared, get_logger() again
+    "set-log-name-between": ("after", _set_log_name),                   # set_log_name(other), get_logger() again
+    "set-log-name-and-back": ("after", _set_log_name_back),             # other name, logger built, the first name again
+}
+# pre-states in which a record may legitimately not come out (no secrecy question then): counted, not judged
+PRE_MAY_BE_SILENT = {"logging-disable", "foreign-alert-function", "logger-class-after-logger-exists"}
+# measured only (see design notes, "Seventh pass"): the named logger exists as a plain Logger before the application
+# replaces the logger class; add_logging_level then installs on the new class only.
+PRE_MEASURED_ONLY = {"logger-class-after-logger-exists"}
+PRE_STATES = [[], ["foreign-audit-method"], ["foreign-audit-level-name"], ["foreign-alert-function"], ["foreign-alert-method"],
+              ["level-numbers-taken"], ["named-logger-configured"], ["logger-class-before"], ["logging-disable"], ["env-logging-level"],
+              ["get-logger-twice"], ["set-log-name-between"], ["set-log-name-and-back"], ["foreign-audit-method", "foreign-alert-method"],
+              ["foreign-audit-method", "set-log-name-between"], ["foreign-audit-level-name", "get-logger-twice"],
+              ["logger-class-after-logger-exists"]]
+
+
+def valid_pre(c):
+    return (isinstance(c, dict) and c.get("kind") == "pre" and isinstance(c.get("pre"), list) and all(p in PRE_STEPS for p in c["pre"])
+            and valid_e2e(c.get("case")) and "before" not in c["case"] and "log_name" not in c["case"])
+
+
+def pre_worker(spec):
+    """Runs in an interpreter that has NOT imported orso.logging yet: the `before` steps, then the first get_logger()
+    of the process (impl()), then the `after` steps and get_logger() again; every case through run_e2e."""
+    import sys
+
+    if any(m.startswith("orso.logging") for m in sys.modules) or _STATE:
+        raise InfraError("pre_worker needs an interpreter in which orso.logging has not been imported")
+    for p in spec["pre"]:
+        if PRE_STEPS[p][0] == "before":
+            PRE_STEPS[p][1]()
+    st = impl()
+    later = [p for p in spec["pre"] if PRE_STEPS[p][0] == "after"]
+    for p in later:
+        PRE_STEPS[p][1](st["cl"])
+    if later:
+        st["logger"] = st["cl"].get_logger()
+    out = []
+    for case in spec["cases"]:
+        text, obj, clause, info = run_e2e(case, st["logger"])
+        out.append([clause, text[-1500:], info.get("err")])
+    return out
+
+
+def pre_run(pre, cases):
+    """-> [[clause | None, emitted text, exception name | None], ...], one fresh interpreter for the lot"""
+    import subprocess
+    import sys
+
+    from .. import core
+
+    code = ("import sys, json\nfrom harness import runner, core\nrunner.setup_impl_path()\nfrom harness.props import c20\n"
+            "spec = core.unjson(json.loads(sys.stdin.read()))\nprint('PRE ' + json.dumps(core._jsonable(c20.pre_worker(spec))))\n")
+    p = subprocess.run([sys.executable, "-c", code], input=json.dumps(core._jsonable({"pre": pre, "cases": cases})), cwd=core.VERIF,
+                       capture_output=True, text=True, timeout=300)
+    for ln in p.stdout.splitlines():
+        if ln.startswith("PRE "):
+            res = core.unjson(json.loads(ln[4:]))
+            if len(res) == len(cases):
+                return res
+    raise InfraError("pre-state worker gave no result for %r: %s" % (pre, (p.stderr or p.stdout)[-800:]))
+
+
+def pre_judged(pre, res):
+    """the clause a result carries in that pre-state: silence is no failure where the state explains it"""
+    clause = res[0]
+    if clause and clause.startswith("record was not emitted") and any(p in PRE_MAY_BE_SILENT for p in pre):
+        return None
+    return clause
+
+
+def shrink_pre(case, clause):
+    """fewest pre-state steps, then fewest members of the dict (every probe is a fresh interpreter; members are tried in one batch)"""
+    pre, ec = list(case["pre"]), case["case"]
+    fails = lambda pre2, ecs: [pre_judged(pre2, r) == clause for r in pre_run(pre2, ecs)]
+    for p in list(pre):
+        p2 = [q for q in pre if q != p]
+        if fails(p2, [ec])[0]:
+            pre = p2
+    for k, v in (("as", "dict"), ("colour", 1)):
+        if ec.get(k, v) != v and fails(pre, [dict(ec, **{k: v})])[0]:
+            ec = dict(ec, **{k: v})
+    for _ in range(6):
+        cands = []
+        drop_members(ec, lambda c2: cands.append(c2) and False)
+        cands = [c for c in cands if valid_e2e(c)][:40]
+        if not cands:
+            break
+        ok = fails(pre, cands)
+        hit = [c for c, f in zip(cands, ok) if f]
+        if not hit:
+            break
+        ec = min(hit, key=lambda c: len(json.dumps(c["obj"], default=str)))
+    return {"kind": "pre", "pre": pre, "case": ec}
+
+
+def pre_cases(rng):
+    """the six level methods x (dict | its JSON text | its JSON bytes), nested object, array and number under sensitive keys"""
+    cases = []
+    for j, m in enumerate(REC_METHODS):
+        for how in E2E_AS:
+            obj = {"db_password": text_marker(rng, 1), "note": text_marker(rng, 0), "ctx": {"api_key": {"v": token(rng)}, "x": token(rng)},
+                   "My_Credentials_2": [token(rng)], "n_token": number_marker(rng)}
+            cases.append({"kind": "e2e", "obj": obj, "colour": j % 2, "method": m, "as": how})
+    return cases
+
+
+def known_pre(case, failure):
+    return next((k for k, f in KNOWN_PREDICATES.items() if f(case, failure)), None)
+
+
+def pre_states(ctx):
+    """Ambient state of the process at the first get_logger(): every pre-state in a fresh interpreter, the six ways a
+    record is made judged by the e2e clause.  What the logger does must not depend on what `logging` held before."""
+    for pre in PRE_STATES:
+        cases = pre_cases(ctx.rng)
+        results = pre_run(pre, cases)
+        name = "+".join(pre) or "clean"
+        for ec, res in zip(cases, results):
+            case = {"kind": "pre", "pre": pre, "case": ec}
+            ctx.case(case, True)
+            ctx.hit("kind:pre-state")
+            ctx.hit("pre-state:%s" % name)
+            clause = pre_judged(pre, res)
+            if res[0] and not clause:
+                ctx.hit("pre-state:%s:silent:%s%s" % (name, ec["method"], ":" + res[2] if res[2] else ""))
+            if not clause:
+                continue
+            if any(p in PRE_MEASURED_ONLY for p in pre):
+                ctx.hit("pre-state:%s:measured:%s:%s:%s" % (name, ec["method"], ec.get("as", "dict"), clause))
+                continue
+            sig = clause + " (through get_logger(), state before the first call)"
+            failure = {"clause": sig}
+            if known_pre(case, failure) or any(v.get("sig") == sig for v in ctx.violations):
+                ctx.fail(case, sig, impl={"out": res[1]})
+                continue
+            small = shrink_pre(case, clause)
+            r2 = pre_run(small["pre"], [small["case"]])[0]
+            if pre_judged(small["pre"], r2) != clause:
+                small, r2 = case, res
+            ctx.fail(small, sig, impl={"out": r2[1], "pre_state": small["pre"]})
+
+
+def replay_pre(ctx, case):
+    if not valid_pre(case):
+        raise InfraError("invalid pre case: %r" % (case,))
+    res = pre_run(case["pre"], [case["case"]])[0]
+    ctx.case(case, True)
+    clause = pre_judged(case["pre"], res)
+    if clause and not any(p in PRE_MEASURED_ONLY for p in case["pre"]):
+        ctx.fail(case, clause + " (through get_logger(), state before the first call)", impl={"out": res[1], "pre_state": case["pre"]})
+
+
+
 def run(ctx):
     impl()
     ctx.note("rule", "records (JSON objects depth 0..3 / URL texts / plain texts) formatted by LogFormatter under a layout, colour setting and "
@@ -2412,6 +2645,7 @@ def run(ctx):
     evaluate(ctx, list(google_text_cases(ctx, ctx.scale(150, 3000))))
     evaluate(ctx, list(ginst_cases(ctx, ctx.scale(100, 3000))))
     observe_suppression_report(ctx)
+    pre_states(ctx)
     ctx.note("call_sites", {"enumerated_from_source": generated("c20.call_sites", []), "new": generated("c20.call_sites_new", []),
                             "gone": generated("c20.call_sites_gone", []),
                             "driven_by": {"LogFormatter.format/sanitize_record/clean_record/color_code/colorizer": "kinds json, url, text, clean",
@@ -2578,6 +2812,8 @@ def dimension_cases(ctx):
 def replay(ctx, case):
     if isinstance(case, dict) and case.get("kind") == "e2e":
         replay_e2e(ctx, case)
+    elif isinstance(case, dict) and case.get("kind") == "pre":
+        replay_pre(ctx, case)
     elif isinstance(case, dict) and case.get("kind") == "seq":
         eval_seq(ctx, case)
     elif isinstance(case, dict) and case.get("kind") == "hist":
@@ -2598,4 +2834,14 @@ def replay(ctx, case):
     ctx.note("harness_degraded", list(_DEGRADED))
 
 
-KNOWN_PREDICATES = {}
+def _k01(case, failure):
+    """C20-K01: another library's `audit` method on logging.Logger before the first get_logger(): orso leaves it in place
+    (`if not hasattr(logger, "audit")`), so logger.audit(dict | bytes) is that method's record - only the audit method,
+    only the secrecy clauses, only in that pre-state"""
+    return (isinstance(case, dict) and case.get("kind") == "pre" and "foreign-audit-method" in case.get("pre", [])
+            and case["case"].get("method") == "audit" and case["case"].get("as", "dict") in ("dict", "bytes")
+            and str(failure.get("clause", "")).startswith(("value under a sensitive key is emitted (through get_logger(), state before",
+                                                            "part of a value under a sensitive key is emitted (through get_logger(), state before")))
+
+
+KNOWN_PREDICATES = {"foreign_audit_method_kept": _k01}
